@@ -246,6 +246,17 @@ func (p *Program) verifyFunc(fc *FuncContract) (u *Unit) {
 			x.useLemma(fr, &out, ul, opts)
 		}
 	}
+	// stepping stones: each `assert` is proved at the (merged) exit state and then available to the
+	// later asserts and to the postconditions
+	for i, a := range fc.Asserts {
+		g := x.evalGoalClause(fr, &out, a, opts)
+		name := fmt.Sprintf("%s#assert%d", fc.Key, i+1)
+		if a.Label != "" {
+			name = fmt.Sprintf("%s#assert.%s", fc.Key, a.Label)
+		}
+		x.vc.oblige(&Obligation{Name: name, Kind: "assert", Func: fc.Key, Guard: out.reach, Goal: g, Src: a.Src, Pos: fmt.Sprintf("%s:%d", a.File, a.Line)})
+		x.vc.assume(mkImplies(out.reach, x.evalBoolClause(fr, &out, a, opts)), "assert "+a.Src)
+	}
 	for i, e := range fc.Ensures {
 		g := x.evalGoalClause(fr, &out, e, opts)
 		name := fmt.Sprintf("%s#post%d", fc.Key, i+1)
@@ -472,6 +483,18 @@ func (p *Program) verifyLemma(lm *Lemma) (u *Unit) {
 	opts := &evalOpts{ghost: map[string]Value{}}
 	for _, h := range lm.Hyps {
 		x.vc.assume(x.evalBoolClause(fr, &st, h, opts), "hyp "+h.Src)
+	}
+	for _, ul := range lm.Uses {
+		// only lemmas declared earlier (same file, smaller line) or in another package may be used:
+		// the "uses" relation is then acyclic and every assumed instance has its own proof
+		l2 := x.prog.contracts.Lemmas[ul.Lemma]
+		if l2 == nil {
+			bail("lemma %s uses unknown lemma %s", name, ul.Lemma)
+		}
+		if l2.Pkg == lm.Pkg && !(l2.File == lm.File && l2.Line < lm.Line) {
+			bail("lemma %s may only use lemmas declared before it (%s is not)", name, ul.Lemma)
+		}
+		x.useLemma(fr, &st, ul, opts)
 	}
 	x.vc.oblige(&Obligation{Name: "lemma " + name + "#cover.hyp", Kind: "cover", Func: name, Guard: tTrue, Goal: tTrue, Cover: true, Src: "hypotheses are satisfiable"})
 	for _, s := range lm.Splits {
